@@ -350,6 +350,29 @@ pub fn run(ctx: &Ctx, rep: &mut Report) {
         let r_wrap = guarded(|| (vt.wrap_from)(arena.slice(), &mut |v| wrap_read = Some(v.read())));
         let canary = arena.check_canaries();
         let unchanged = arena.slice() == &case.input.bytes[..];
+        // the answer is a function of the slice alone: the same slice surrounded by other bytes gives the same answer
+        // (an over-read whose result happens to be masked by the usual surroundings shows up here)
+        if case.place == Place::Island {
+            if let Ok(base) = &r_val {
+                let base_s = format!("{:?}", base.as_ref().map_err(|e| (kind_name(&e.kind), e.pos)));
+                for fill in [0x00u8, 0xFF] {
+                    arena.fill_outside(fill);
+                    let r = guarded(|| (vt.validate)(arena.slice()));
+                    rep.count("surroundings-varied");
+                    if let Ok(r) = &r {
+                        let s = format!("{:?}", r.as_ref().map_err(|e| (kind_name(&e.kind), e.pos)));
+                        if s != base_s {
+                            rep.violation(
+                                format!("{}|result-depends-on-memory-outside-the-slice|{}", ctx.prop, kind_path(d)),
+                                format!("validate of {} on the same {} bytes answers {} but {} when the bytes around the slice are {:#04x}", vt.name, n, base_s, s, fill),
+                                cj(),
+                            );
+                            break;
+                        }
+                    }
+                }
+            }
+        }
 
         let passed_gate = n >= vt.min_size && addr % vt.align == 0;
         for (api, r) in [("validate", &r_val), ("from_bytes", &r_fb), ("from_mut_bytes", &r_fmb), ("FlatWrap::from_wrapped_bytes", &r_wrap)] {
